@@ -9,6 +9,9 @@ CONSTANTS N = 4
  SignedGater = FALSE
  InnerProofPolicy = "either"
  VCBatchPolicy = "either"
+ AggBatchFor = "none"
+ MemoVerifier = FALSE
+ ReplayPolicy = "either"
 CONSTRAINT Mark
 POSTCONDITION Report
 CHECK_DEADLOCK FALSE
